@@ -95,9 +95,11 @@ func xgoSource(scs []*Scenario) string {
 	var b strings.Builder
 	b.WriteString("import \"errors\"\n\nvar _ = errors.New\n\n")
 	for _, sc := range scs {
+		MinParens = sc.MinParens
 		for _, f := range sc.Prog.Funcs {
 			b.WriteString(f.XGo())
 		}
+		MinParens = false
 		b.WriteString(sc.XGoExtra)
 	}
 	return b.String()
